@@ -4,6 +4,8 @@ import Vore.Driver.OpsC04
 import Vore.Driver.OpsC05
 import Vore.Driver.OpsC20
 import Vore.Driver.OpsLex
+import Vore.Driver.OpsC17
+import Vore.Driver.OpsC18
 /-!
 # Vore.Driver.Ops — registry of the per-property driver operations
 
@@ -13,6 +15,6 @@ Each property that needs its own line-protocol operations defines, in
 -/
 namespace Vore.Driver
 
-def extraOps : List (String → List String → Option String) := [handleParse, handleC04, handleC05, handleC20, handleLex]
+def extraOps : List (String → List String → Option String) := [handleParse, handleC04, handleC05, handleC20, handleLex, handleC17, handleC18]
 
 end Vore.Driver
